@@ -112,16 +112,31 @@ def deser(rows):
              "attr": at} for p, a, b, at in rows]
 
 
+_STUB = {}
+
+
+def _stub_info(file_info):
+    """Harness handler: the information of a file comes from the harness' own table."""
+    from typhon.files import FileInfo
+    e = _STUB[file_info.path]
+    return FileInfo(file_info.path, [e["t0"], e["t1"]], json.loads(json.dumps(e["attr"])))
+
+
 def new_fileset(cache=None, **kw):
-    from typhon.files import FileSet
+    from typhon.files import FileSet, FileHandler
     return FileSet(path="/vt-nonexistent/{year}/{month}/{day}/f_{hour}{minute}{second}.nc",
-                   info_cache=cache, **kw)
+                   info_cache=cache, handler=FileHandler(info=_stub_info), info_via="handler", **kw)
 
 
 def fill(fs, entries):
-    from typhon.files import FileInfo
+    """Populate the cache through the public route (FileSet.get_info with info_via='handler'),
+    not by writing into info_cache - so that any bookkeeping typhon does on that route is exercised."""
     for e in entries:
-        fs.info_cache[e["path"]] = FileInfo(e["path"], [e["t0"], e["t1"]], json.loads(json.dumps(e["attr"])))
+        _STUB[e["path"]] = e
+        fs.get_info(e["path"])
+    missing = [e["path"] for e in entries if e["path"] not in fs.info_cache]
+    if missing:
+        raise AssertionError("get_info did not cache %r" % missing[:2])
 
 
 def compare_cache(cache, entries):
@@ -171,7 +186,7 @@ def roundtrip_case(rec, rng, entries, via):
         except Exception as exc:
             rec.violation("cache-roundtrip", case, {"where": "save_cache", "exception": repr(exc)})
             return
-        if os.listdir(root) != ["cache.json"]:
+        if sorted(os.listdir(root)) != ["cache.json"]:
             rec.violation("cache-debris", case, {"left": os.listdir(root)})
         if via == "load":
             fs2 = new_fileset()
@@ -192,6 +207,31 @@ def roundtrip_case(rec, rng, entries, via):
                            for e in entries)
         if has_boundary:
             rec.nontriv(["roundtrip", via, len(entries) > 100], ser(entries)[:20])
+        # call history on the saving object: save to a second file, and save again after the first
+        # file was removed / truncated - every save_cache() must (re)write a complete document
+        for how in ("second-file", "removed", "truncated"):
+            target = path
+            if how == "second-file":
+                target = os.path.join(root, "cacheB.json")
+            elif how == "removed":
+                os.remove(path)
+            else:
+                with open(path, "r+b") as fh:
+                    fh.truncate(max(0, os.path.getsize(path) // 2))
+            try:
+                fs.save_cache(target)
+                c2, w2, e2 = load_fresh(target)
+            except Exception as exc:
+                rec.violation("cache-roundtrip", dict(case, history=how),
+                              {"where": "save_cache again", "exception": repr(exc)})
+                break
+            d2 = compare_cache(c2 or {}, entries) if e2 is None else {"exception": repr(e2)}
+            if d2 or w2:
+                rec.violation("cache-roundtrip", dict(case, history=how),
+                              dict(d2 or {}, why2="save_cache() after '%s' did not restore the cache" % how,
+                                   warnings=[x[:150] for x in w2]))
+                break
+            rec.count("roundtrip.resave_histories")
         # second generation: save what was loaded, must be a fixed point
         fs3 = new_fileset()
         fs3.info_cache.update(cache)
